@@ -225,6 +225,16 @@ func C18(tier string) int {
 			cases = append(cases, cs)
 		}
 	}
+	// two files of one path that both refer to a declaration of the edited file: the other file's reference stands at a
+	// larger byte offset than the edited file's (results that list places of several files must not order them by offset)
+	for i := range cases {
+		if cases[i].Entry.ID == "S:addr-forms" {
+			cases = append(cases, explore.Case{Entry: cases[i].Entry, File: "main.tf", Family: "twofiles", PosTo: -1,
+				Text: "variable \"b\" {\n  default = var.x\n}\nvariable \"x\" {\n  type = string\n}\n",
+				More: []world.FileSpec{{Name: "a.tf", Text: "# padding padding padding padding padding padding\nvariable \"a\" {\n  default = var.x\n}\n"}}})
+			break
+		}
+	}
 	// broken files: also single-token edits of the first seeds (thorough) are in mcWorlds' prefix family
 	explore.ParallelEach(len(cases), c, explore.Deadline(tier), func(i int, l *report.Local) {
 		if cases[i].Family == "multifile" {
